@@ -7,9 +7,9 @@
     decision) it is the hypothesis "the same table".  [run_QR]: the real run on the injected inputs is the injection of the
     rational run; [run_QR_steps]: hence every sampler call of a successful rational run, injected, is a [step_ok] call of the real
     instance — C03's [ind_step] by [gstep_is_ind_step] — at the scale and inverse temperature the rational trace names. *)
-From Coq Require Import ZArith QArith List Bool Arith Lia Reals Qreals Lra.
+From Coq Require Import ZArith QArith Qabs List Bool Arith Lia Reals Qreals Lra.
 From Leaspy Require Import Base.QAux Sampler.SamplerModel Sampler.SamplerProofs Saem.Anneal Sampler.AdaptiveStd
-  Api.Personalize Api.PersonalizeChain Api.PersonalizeChainProofs Api.PersonalizeChainLink Api.PersonalizeChainLinkProofs Api.PersonalizeExec Api.PersonalizeChainExec.
+  Api.Personalize Api.PersonalizeChain Api.PersonalizeChainProofs Api.PersonalizeChainLink Api.PersonalizeChainLinkProofs Api.PersonalizeExec Api.PersonalizeChainExec Api.PersonalizeChainExecR.
 Import ListNotations.
 
 Lemma hom_QR addQ mulQ decQ decR attQ regvQ regsumQ attR regvR regsumR :
@@ -83,6 +83,70 @@ Proof.
   refine (run_QR_steps radd rmul _ _ _ decR _ _ _ attR regvR regsumR Hd Ha Hr Hs _ _ _ _ _ _ _ _ _ o E).
   - intros x y. unfold radd. now rewrite Q2R_Qred, Q2R_plus.
   - intros x y. unfold rmul. now rewrite Q2R_Qred, Q2R_mult.
+Qed.
+
+(** * The tables of the executor read over R (Api/PersonalizeChainExecR.v) extend the rational tables *)
+Lemma Q2R_0' : Q2R 0 = 0%R. Proof. unfold Q2R; simpl; lra. Qed.
+Lemma Q2R_1' : Q2R 1 = 1%R. Proof. unfold Q2R; simpl; lra. Qed.
+
+Lemma Q2R_Qabs q : Q2R (Qabs q) = Rabs (Q2R q).
+Proof.
+  apply Qabs_case; intros Hq.
+  - apply Qle_Rle in Hq. rewrite Q2R_0' in Hq. now rewrite Rabs_pos_eq.
+  - apply Qle_Rle in Hq. rewrite Q2R_0' in Hq. rewrite Q2R_opp. now rewrite Rabs_left1.
+Qed.
+
+Lemma rclose_hom tol x y : rclose tol x (Q2R y) = qclose tol x y.
+Proof.
+  unfold rclose, qclose.
+  assert (E1 : Rabs (Q2R x - Q2R y) = Q2R (Qabs (x - y))) by (now rewrite Q2R_Qabs, Q2R_minus).
+  assert (E2 : (Q2R tol * (1 + Rabs (Q2R y)))%R = Q2R (tol * (1 + Qabs y))) by (now rewrite Q2R_mult, Q2R_plus, Q2R_Qabs, Q2R_1').
+  rewrite E1, E2.
+  destruct (Rle_dec (Q2R (Qabs (x - y))) (Q2R (tol * (1 + Qabs y)))) as [L|L]; symmetry.
+  - apply Qle_bool_iff. now apply Rle_Qle.
+  - apply not_true_is_false. intros C. apply L. apply Qle_Rle. now apply Qle_bool_iff.
+Qed.
+
+Lemma tclose_hom tol : forall (a b : tens Q), tcloseR tol a (tmap Q2R b) = tclose_lazy tol a b.
+Proof.
+  induction a as [x | l IH] using tens_ind'; intros [y | m]; try reflexivity.
+  - apply rclose_hom.
+  - cbn [tmap tcloseR tclose_lazy]. revert m. induction IH as [|c cs Hc _ IHl]; intros [|d m]; try reflexivity.
+    cbn [map]. rewrite Hc. destruct (tclose_lazy tol c d); [apply IHl | reflexivity].
+Qed.
+
+Lemma state_close_hom tol : forall s t, state_closeR tol s (smap Q2R t) = state_close tol s t.
+Proof.
+  unfold state_closeR, state_close, smap. induction s as [|a s IH]; intros [|b t]; try reflexivity.
+  cbn [map all2]. rewrite tclose_hom. destruct (tclose_lazy tol a b); [apply IH | reflexivity].
+Qed.
+
+Lemma lookup_hom tol : forall tbl st, lookupR tol tbl (smap Q2R st) = lookup tol tbl st.
+Proof. induction tbl as [|r tbl IH]; intros st; [reflexivity|]. cbn [lookupR lookup]. rewrite state_close_hom, IH. reflexivity. Qed.
+
+Lemma lookup_dec_hom : forall tbl u, lookup_decR tbl (Q2R u) = lookup_dec tbl u.
+Proof.
+  induction tbl as [|[x b] tbl IH]; intros u; [reflexivity|]. cbn [lookup_decR lookup_dec]. rewrite IH.
+  destruct (Req_EM_T (Q2R x) (Q2R u)) as [E|E].
+  - apply eqR_Qeq in E. apply Qeq_bool_iff in E. now rewrite E.
+  - destruct (Qeq_bool x u) eqn:Eb; [|reflexivity]. exfalso. apply E. apply Qeq_eqR. now apply Qeq_bool_iff.
+Qed.
+
+(** the hypotheses of [run_case_real] are met by the tables themselves read over R: T2's re-execution of EVERY recorded run is,
+    injected, a run of the real instance — no hypothesis left but the success of the rational run *)
+Theorem run_case_real_tables tol (c : chain_case) o : run_case tol c = Done o ->
+  personalize_run R Rplus Rmult Q2R (decide_ofR (cc_dec c)) (att_ofR tol (cc_table c)) (regv_ofR tol (cc_table c)) (regsum_ofR tol (cc_table c))
+                  (cc_scf c) (cc_acf c) (cc_nb c) (cc_random c) (length (cc_ids c))
+                  (cc_orders c) (smap Q2R (cc_init c)) (cc_scales c) (tape_map Q2R (Build_tape (cc_normals c) (cc_uniforms c)))
+    = Done (out_map Q2R o) /\
+  Forall (fun kl => Forall (fun r => step_ok R Rplus Rmult Q2R (decide_ofR (cc_dec c)) (att_ofR tol (cc_table c)) (regv_ofR tol (cc_table c))
+                                             (step_map Q2R r)) (snd kl)) (o_trace o).
+Proof.
+  apply run_case_real.
+  - intros u a b cc d t. unfold decide_of, decide_ofR. symmetry. apply lookup_dec_hom.
+  - intros st. unfold att_ofR, att_of. rewrite lookup_hom; destruct (lookup tol (cc_table c) st); reflexivity.
+  - intros v st. unfold regv_ofR, regv_of. rewrite lookup_hom; destruct (lookup tol (cc_table c) st); reflexivity.
+  - intros st. unfold regsum_ofR, regsum_of. rewrite lookup_hom; destruct (lookup tol (cc_table c) st); reflexivity.
 Qed.
 
 (** * Non-vacuity: the example run of PersonalizeChainProofs (computed over Q) and its real counterpart *)
